@@ -91,6 +91,20 @@ def exec_exact(case):
     mag = [10.0 ** np.array(e, dtype=float) for e in c["mag"]]          # per mode: one magnitude per column
     magnified = any(v != 0 for e in c["mag"] for v in e)
     B = [b * g for b, g in zip(Bint, mag)] if magnified else Bint
+    if c["s"] >= 8:
+        # complex factor sets: row phases on both sets, one complex scalar per column of the second set
+        # (pattern 8: unit modulus).  Only correlation_index supports complex input.
+        cplx = lambda t: np.array([[complex(a, b) for a, b in row] for row in t]) if t and isinstance(t[0][0], list) else np.array([complex(a, b) for a, b in t])
+        Ac, Bc = [], []
+        for m in range(M):
+            ph = cplx(c["rph"][m])[:, None]
+            z = cplx(c["cz"][m])
+            if c["s"] == 8:
+                z = z / np.abs(z)
+            Ac.append(ph * A[m])
+            Bc.append(ph * Bint[m] * z[None, :])
+        return {"id": case["id"], "kind": "exact", "cfg": c, "cong": [], "permute": [],
+                "corr": _corr_records(Ac, Bc), "corr_swap": _corr_records(Bc, Ac)}
     w = np.array(c["w"], dtype=float)
     if magnified:                                                       # the tensor keeps its size in the weights
         for g in mag:
@@ -304,7 +318,7 @@ def run(chk, opts):
         count[c["kind"]] = count.get(c["kind"], 0) + 1
     chk.notes["domain"] = count
     chk.rule = ("every configuration of Matching.tla's domain (exported from TLC's design run): %s. exact = all R! column permutations for R<=%d (the 2R "
-                "dihedral ones for R=%d) x 8 rescaling patterns (4 integer, 4 with floating-point magnitudes 1e-9..1e5 on the second set) x equivalent/different base sets x 1-3 modes, both argument roles; generic (R<=%d, all R! matchings brute-forced "
+                "dihedral ones for R=%d) x 10 rescaling patterns (4 integer, 4 with floating-point magnitudes 1e-9..1e5 on the second set, 2 complex: correlation_index only) x equivalent/different base sets x 1-3 modes, both argument roles; generic (R<=%d, all R! matchings brute-forced "
                 "in TLC) / metric / lev data drawn from VERIF_SEED; distinct = distinct configurations"
                 % (", ".join("%s=%d" % kv for kv in sorted(count.items())), 5 if thorough else 4, 6 if thorough else 5, 6 if thorough else 5))
     byid = {}
